@@ -316,8 +316,13 @@ def run(chk):
   # guarded by non-main
   gl = [n for n in f.cfg.stmt_nodes() if f.cfg.stmt[n] is ren]
   g = f.guards(gl[0]) if gl else []
-  ok = any(val and isinstance(e, ast.Compare) and isinstance(e.ops[0], ast.NotEq) and
-           const_str(e.comparators[0]) == 'main' for e, val in g)
+  def not_main(e, val):
+    e = f.expand(e, 2)
+    return isinstance(e, ast.Compare) and len(e.ops) == 1 and \
+        const_str(e.comparators[0]) == 'main' and (
+            (val and isinstance(e.ops[0], ast.NotEq)) or
+            (val is False and isinstance(e.ops[0], ast.Eq)))
+  ok = any(not_main(e, val) for e, val in g)
   chk.ob('C12-R3', ok, None, 'the main file keeps its predicate names', '', fi=f.fi, nontrivial=False)
   imp = [c for n, c in f.all_calls() if call_tail(c) == 'RenamePredicate' and
          not any(c is y for y in ast.walk(ren))]
@@ -327,8 +332,11 @@ def run(chk):
     if not (isinstance(third, ast.BinOp) and dotted(third.left) == 'import_prefix'):
       ok = False
   src = f.assigned_from('import_prefix')
-  ok = ok and len(src) == 1 and 'predicates_prefix' in norm(src[0]) and \
-      'parsed_imports' in norm(src[0]) and 'imported_predicate_file' in norm(src[0])
+  src_text = norm(f.expand(src[0], 3, stop=('import_prefix',)), 200) if len(src) == 1 and \
+      isinstance(src[0], ast.AST) else ''
+  ok = ok and len(src) == 1 and 'predicates_prefix' in src_text and \
+      'parsed_imports' in src_text and ('imported_predicate_file' in src_text or
+                                        "s['file']" in src_text)
   chk.ob('C12-R3', ok, None, "imported names are renamed with the imported file's prefix",
          'uses of an imported predicate are renamed with %s' % (norm(src[0], 60) if src else '?'),
          fi=f.fi)
